@@ -303,4 +303,8 @@ Definition obs_of (o : outcome) : obs :=
   | OPanic w => mkObs StPanic w false [] []
   end.
 
+Definition is_done (o : outcome) : bool := match o with ODone _ _ _ _ => true | _ => false end.
+Definition is_panic (o : outcome) : bool := match o with OPanic _ => true | _ => false end.
+Definition written (o : outcome) : bytes := match o with ODone w _ _ _ => w | OErr _ w => w | OPanic w => w end.
+
 Definition ctx_of (cfg : scfg) : sctx := mkSctx (sc_mech cfg) (sc_uid cfg) (sc_fdcap cfg) (sc_guid cfg).
